@@ -25,7 +25,18 @@ window state in `engine/types.rs`: `pub(crate)`, hash map keyed by strings, reac
 and C34-m3 (`inject_batch` in the async coordinator). Many of the **caught** rows were *missed* or *undecided* in the
 first evaluation round; they are caught now because the check was extended afterwards (chrono model for the windows,
 bounded stand-ins) — the extension was always a contract or a stand-in on the real function stated from the property,
-never a test for the specific change. No seeded change was reported on
+never a test for the specific change.
+
+*Second batches* (m4–m6, agents told which ideas were already used): **C06** — all three refuted at once by the Verus
+obligation of the very function they touch (`product_with_optional`, `intersection_rec`, `intersection_refs`). **C07** —
+first evaluation: one refuted by Verus (`get_or_create`, weakened zero-suppression), two *undecided* (a new persistent
+cache field / a restructured `gc`: proof lost, stand-in silent); **C31** — first evaluation: three *undecided*, one of
+them through a machinery error (the havoc fallback assumed a marker line the C31 template does not have — fixed). The
+witness finders were then extended (extension order and canonicity after `product_with_optional`, terminal handles kept
+alive across `gc`; a sibling directory differing only in letter case, two cooperating links with `..`, re-validation
+after an accepted file was replaced by a link) and all six are reported with a concrete failing input. This is the
+honest picture of the stand-ins: they catch what their enumeration happens to contain, and nothing else; only the
+proofs generalise. No seeded change was reported on
 the unchanged tree, and no check reports a violation on the unchanged tree.
 
 Own development mutants (scratch copy, not kept): union wrong child, intersection cache key `(a,a)`, `pwo` wrong lo,
